@@ -726,6 +726,7 @@ bool SimpSMTSolver::eliminate(bool turn_off_elim)
         {
             Var elim = elim_heap.removeMin();
 
+            OPENSMT_VERIF(verif::stopPoint(5));
             if (not okContinue()) break;
 
             if (isEliminated(elim) || value(elim) != l_Undef) continue;
